@@ -136,7 +136,7 @@ type Replay struct {
 	// Prelude: the violation depends on state the library carried over from earlier runs of the same
 	// worker process; replay re-executes runs Offset, Offset+Stride, ... < Upto (regenerated from Seed)
 	// before the plan.
-	Prelude *Prelude `json:"prelude,omitempty"`
+	Prelude  *Prelude `json:"prelude,omitempty"`
 	Original struct {
 		Seed uint64 `json:"seed"`
 		Run  int    `json:"run"`
